@@ -1,11 +1,22 @@
 #!/usr/bin/env python3
 """C01 differential run: generated modules -> (driver: compile + evaluate) vs (definitional interpreter).
 
-    run_c01.py --n N --seed S [--size K] [--args A] [--show-rejected] [--dump DIR]
+    run_c01.py --n N --seed S [--tracing cycle|all|verbose-all|silent-all|compact-user|..] [--size K] [--args A]
+               [--include-known] [--allow-hazard] [--focus lists] [--dump DIR]
 
-Also exposes `cases(seed, n_modules, n_args)` for other checks (C02 / C06 / C14).
+`--tracing cycle` (default): module i is compiled under TRACINGS[i % 3] (verbose-all, silent-all, compact-user),
+like /verif/oracles/c01.py does; `all` compiles every module under the three of them.
+
+API for the other checks (C02 / C06 / C14 / c01.py):
+    cases(seed, n_modules, n_args, size=None, opts=None)        generated cases with the interpreter's expectations
+    build_case(seed, index, n_args, size=None, opts=None)       one of them (deterministic in (seed, index, opts))
+    explain_case(case, entry, k, tracing, got) -> label | None  exact label of a known disagreement class
+    explain(seed, index, n_args, opts, entry_name, k, tracing, got_outcome) -> label | None   same, re-deriving the case
+    LABELS                                                      every label explain can return (atoms; "+"-joined)
+    known_compile_panic(msg) -> label | None
 """
 import argparse
+import itertools
 import json
 import os
 import sys
@@ -24,6 +35,10 @@ import model as M  # noqa: E402
 import pp  # noqa: E402
 
 FUEL = 60000
+TRACINGS = ["verbose-all", "silent-all", "compact-user"]
+
+# aborts a well-typed program may end with (everything else is a structural machine error: C06)
+ABORTS_OK = {"EvaluationFailure", "DivideByZero", "EmptyList", "DeserialisationError", "ByteStringOutOfBounds", "OutsideByteBounds", "OverflowError", "OutsideNaturalBounds", "ByteStringConsNotAByte", "IntegerToByteStringNegativeInput", "IntegerToByteStringNegativeSize", "IntegerToByteStringSizeTooBig", "IntegerToByteStringSizeTooSmall", "ReplicateByteNegativeSize", "ReplicateByteSizeTooBig"}
 
 
 def module_for(seed, index, size=None, opts=None):
@@ -57,9 +72,42 @@ def cases(seed, n_modules, n_args, size=None, opts=None):
         yield c
 
 
+def tracing_for(index, mode="cycle"):
+    if mode == "cycle":
+        return [TRACINGS[index % 3]]
+    if mode == "all":
+        return list(TRACINGS)
+    return [mode]
+
+
+# ------------------------------------------------------------------ explanation of known disagreement classes
+
+# strictness deviations (at most one) and rewrite deviations (any subset); see interp.Interp for their meaning
+STRICTNESS = [("call-by-need", ("lazy",)), ("call-by-need-expect-cast", ("lazy", "lazy_expect"))]
+REWRITES = [("F2_list_tail_order", ("f2",)), ("F3_cast_cancel", ("f3",)), ("F6_and_false", ("f6",))]
+LABELS = [x[0] for x in STRICTNESS] + [x[0] for x in REWRITES]
+
+
+def _candidates():
+    """(label, deviation set), fewest deviations first. A label is the "+"-join of its atoms in the order of LABELS."""
+    out = []
+    for n in range(0, len(REWRITES) + 1):
+        for rw in itertools.combinations(REWRITES, n):
+            for st in [None] + STRICTNESS:
+                if st is None and not rw:
+                    continue
+                atoms = ([st[0]] if st else []) + [x[0] for x in rw]
+                dev = set(st[1] if st else ()) | set(d for x in rw for d in x[1])
+                out.append(("+".join(atoms), dev))
+    out.sort(key=lambda x: (x[0].count("+"), 0))
+    return out
+
+
+CANDIDATES = _candidates()
+
+
 def classify(case, entry, k):
-    """When the compiled result differs from the strict interpretation: does it coincide with a
-    call-by-need evaluation of the source (let / argument evaluated only when used)?"""
+    """(kept for c01.py) the outcome of a call-by-need evaluation of the source"""
     m = case["module"]
     e = [x for x in m.entries if x.fn.name == entry["name"]][0]
     try:
@@ -68,17 +116,72 @@ def classify(case, entry, k):
         return ("error", repr(ex))
 
 
+def _norm_outcome(got):
+    """driver result dict | drv.outcome tuple/list -> ("ok", data) | ("abort", variant) | None"""
+    if isinstance(got, dict):
+        got = drv.outcome(got)
+    got = tuple(got)
+    if got and got[0] in ("ok", "abort"):
+        return got
+    return None
+
+
+def explain_case(case, entry, k, tracing, got):
+    """Exact, stable label of the known deviation(s) that explain a disagreement, or None.
+    SOUND: a label is only returned when re-interpreting the source under exactly the deviations it names
+    (interp.Interp dev modes) reproduces the compiled outcome `got` (same Data value, or abort with a
+    non-structural machine error). The fewest deviations that reproduce it win."""
+    o = _norm_outcome(got)
+    if o is None:
+        return None
+    if o[0] == "abort" and o[1] not in ABORTS_OK:
+        return None  # structural machine errors are never "explained" (C06)
+    m = case["module"]
+    e = [x for x in m.entries if x.fn.name == entry["name"]][0]
+    args = list(entry["values"][k])
+    for label, dev in CANDIDATES:
+        try:
+            r = interp.run(m, e, args, FUEL, dev=dev)
+        except Exception:
+            continue
+        if (o[0] == "ok" and r[0] == "ok" and r[1] == o[1]) or (o[0] == "abort" and r[0] == "abort"):
+            return label
+    return None
+
+
+def explain(seed, index, n_args, opts, entry_name, k, tracing, got_outcome, size=None):
+    """explain_case for a case re-derived from (seed, index, n_args, opts): usable from another process.
+    Runs in a big-stack thread (the interpreter recurses)."""
+    res = []
+
+    def work():
+        c = build_case(seed, index, n_args, size, opts)
+        e = [x for x in c["entries"] if x["name"] == entry_name][0]
+        res.append(explain_case(c, e, k, tracing, got_outcome))
+
+    threading.stack_size(256 * 1024 * 1024)
+    t = threading.Thread(target=work)
+    t.start()
+    t.join()
+    return res[0] if res else None
+
+
 def known_compile_panic(msg):
     """compile-time panics already recorded in FINDINGS.md (matched by message shape)"""
     if "FreeUnique" in msg and "_curried" in msg:
         return "F5 FreeUnique(.._curried) shrinker.rs"
     if "FreeUnique" in msg and "_id_" in msg:
         return "F4 FreeUnique(<var>_id_N) shrinker.rs"
+    if "gen_uplc.rs" in msg and "Option::unwrap()" in msg:
+        return "F7 gen_uplc.rs unwrap on None (list clauses)"
     if "EvaluationFailure" in msg and "optimize/shrinker.rs" in msg:
         return "F8 constant folding of a failing builtin call (shrinker.rs unwrap)"
     if "TryFromBigIntError" in msg and "machine/runtime.rs" in msg:
         return "constant folding of a bytearray builtin with an out-of-range integer (C02/C10)"
     return None
+
+
+# ------------------------------------------------------------------ command line
 
 
 def main(argv=None):
@@ -87,6 +190,7 @@ def main(argv=None):
     ap.add_argument("--seed", type=int, default=0)
     ap.add_argument("--size", type=int, default=None)
     ap.add_argument("--args", type=int, default=8)
+    ap.add_argument("--tracing", default="cycle", help="cycle (index %% 3) | all | verbose-all | silent-all | compact-user | <level>-<scope>")
     ap.add_argument("--show-rejected", type=int, default=3)
     ap.add_argument("--show", type=int, default=10)
     ap.add_argument("--dump", default=None)
@@ -107,12 +211,14 @@ def main(argv=None):
             keep = [i for i, x in enumerate(e["expected"]) if x[0] != "fuel"]
             e["sent"] = keep
             ents.append({"name": e["name"], "args": [e["args"][i] for i in keep]})
-        jobs.append(drv.make_job(c["index"], c["modules"], ents))
+        jobs.append(drv.make_job(c["index"], c["modules"], ents, tracings=tracing_for(c["index"], a.tracing)))
     t1 = time.time()
     res = drv.run_many(jobs, shards=a.shards)
     t_run = time.time() - t1
 
-    st = {"modules": len(cs), "rejected": 0, "panic": 0, "died": 0, "agree_value": 0, "agree_abort": 0, "fuel": 0, "disagree": 0, "other": 0, "lazy_explained": 0}
+    st = {"modules": len(cs), "rejected": 0, "panic": 0, "died": 0, "agree_value": 0, "agree_abort": 0, "fuel": 0, "disagree": 0, "other": 0}
+    by_label = {}
+    by_tracing = {}
     feats = {}
     disagreements = []
     panics = {}
@@ -126,63 +232,64 @@ def main(argv=None):
             st["died"] += 1
             rejected.append((c, r))
             continue
-        run = r["runs"][0]
-        if "rejected" in run:
-            st["rejected"] += 1
-            rejected.append((c, run["rejected"]))
-            continue
-        for e, er in zip(c["entries"], run["entries"]):
+        for e in c["entries"]:
             st["fuel"] += sum(1 for x in e["expected"] if x[0] == "fuel")
-            if "results" not in er:
-                msg = er.get("compile_panic", "")
-                known = known_compile_panic(msg)
-                if known:
-                    st["known_compile_panic"] = st.get("known_compile_panic", 0) + 1
-                    known_panics.setdefault(known, []).append(c["index"])
-                    continue
-                st["panic"] += 1
-                disagreements.append((c, e, None, None, {k: v for k, v in er.items() if k in ("compile_panic", "harness_error")}, None))
+        for run in r["runs"]:
+            tr = run.get("tracing", "?")
+            if "rejected" in run:
+                st["rejected"] += 1
+                rejected.append((c, run["rejected"]))
                 continue
-            for k, got in zip(e["sent"], er["results"]):
-                exp = e["expected"][k]
-                o = drv.outcome(got)
-                if exp[0] == "ok" and o[0] == "ok" and o[1] == exp[1]:
-                    st["agree_value"] += 1
-                elif exp[0] == "abort" and o[0] == "abort":
-                    st["agree_abort"] += 1
-                elif o[0] == "other" and "panic" in got:
-                    # the evaluator itself panicked (a uplc machine defect: properties C04/C10), not a C01 verdict
-                    site = got["panic"].split(" @ ")[-1]
-                    st["machine_panic"] = st.get("machine_panic", 0) + 1
-                    panics.setdefault(site, []).append((c, e, k, exp, got))
-                elif o[0] == "other":
-                    st["other"] += 1
-                    disagreements.append((c, e, k, exp, got, None))
-                else:
-                    lz = classify(c, e, k)
-                    explained = (lz[0] == "ok" and o[0] == "ok" and o[1] == lz[1])
-                    tags = sorted(f for f in c["features"] if f.startswith("known:"))
-                    why = None
-                    if o[0] == "abort" and o[1] not in ("EvaluationFailure", "DivideByZero", "EmptyList", "DeserialisationError", "ByteStringOutOfBounds", "OutsideByteBounds", "OverflowError", "OutsideNaturalBounds"):
-                        why = "machine error %s" % o[1]
-                    if explained:
-                        st["lazy_explained"] += 1
-                        why = "call-by-need"
-                    elif why:
-                        pass
-                    elif tags:
-                        st["in_known_shape_modules"] = st.get("in_known_shape_modules", 0) + 1
-                        why = "module contains " + ",".join(tags)
-                    st["disagree"] += 1
-                    disagreements.append((c, e, k, exp, o, why))
+            for e, er in zip(c["entries"], run["entries"]):
+                if "results" not in er:
+                    msg = er.get("compile_panic", "")
+                    known = known_compile_panic(msg)
+                    if known:
+                        st["known_compile_panic"] = st.get("known_compile_panic", 0) + 1
+                        known_panics.setdefault(known, []).append(c["index"])
+                        continue
+                    st["panic"] += 1
+                    disagreements.append((c, e, None, None, {k: v for k, v in er.items() if k in ("compile_panic", "harness_error")}, None, tr))
+                    continue
+                for k, got in zip(e["sent"], er["results"]):
+                    exp = e["expected"][k]
+                    o = drv.outcome(got)
+                    if exp[0] == "ok" and o[0] == "ok" and o[1] == exp[1]:
+                        st["agree_value"] += 1
+                    elif exp[0] == "abort" and o[0] == "abort":
+                        st["agree_abort"] += 1
+                    elif o[0] == "other" and "panic" in got:
+                        # the evaluator itself panicked (a uplc machine defect: properties C04/C10), not a C01 verdict
+                        site = got["panic"].split(" @ ")[-1]
+                        st["machine_panic"] = st.get("machine_panic", 0) + 1
+                        panics.setdefault(site, []).append((c, e, k, exp, got))
+                    elif o[0] == "other":
+                        st["other"] += 1
+                        disagreements.append((c, e, k, exp, got, None, tr))
+                    else:
+                        label = explain_case(c, e, k, tr, o)
+                        why = label
+                        if label is None:
+                            tags = sorted(f for f in c["features"] if f.startswith("known:"))
+                            if o[0] == "abort" and o[1] not in ABORTS_OK:
+                                why = "UNEXPLAINED machine error %s" % o[1]
+                            elif tags:
+                                why = "UNEXPLAINED (module contains " + ",".join(tags) + ")"
+                            else:
+                                why = "UNEXPLAINED"
+                        by_label[label or "unexplained"] = by_label.get(label or "unexplained", 0) + 1
+                        by_tracing[tr] = by_tracing.get(tr, 0) + 1
+                        st["disagree"] += 1
+                        disagreements.append((c, e, k, exp, o, why, tr))
 
     total = st["agree_value"] + st["agree_abort"]
-    print("== C01 run: seed=%d n=%d args=%d" % (a.seed, a.n, a.args))
+    new = by_label.get("unexplained", 0)
+    print("== C01 run: seed=%d n=%d args=%d tracing=%s" % (a.seed, a.n, a.args, a.tracing))
     print("modules generated      : %d  (%.1f modules/min generation+interpretation)" % (st["modules"], 60.0 * st["modules"] / max(t_gen, 1e-9)))
     print("rejected by checker    : %d (%.1f%%)   driver died/timeouts: %d   compile panics: %d" % (st["rejected"], 100.0 * st["rejected"] / max(1, st["modules"]), st["died"], st["panic"]))
     print("cases agreed           : %d  (value %d, abort %d = %.1f%% aborts)  fuel-skipped %d  other %d" % (total, st["agree_value"], st["agree_abort"], 100.0 * st["agree_abort"] / max(1, total), st["fuel"], st["other"]))
-    known_n = st["lazy_explained"] + st.get("in_known_shape_modules", 0)
-    print("DISAGREEMENTS          : %d new  + %d call-by-need (FINDINGS.md F1 class)  + %d in modules generated with a known trigger shape (--include-known)" % (st["disagree"] - known_n, st["lazy_explained"], st.get("in_known_shape_modules", 0)))
+    print("DISAGREEMENTS          : %d unexplained (new)  + %d explained by a recorded finding: %s" % (new, st["disagree"] - new, json.dumps({k: v for k, v in sorted(by_label.items()) if k != "unexplained"})))
+    print("disagreements/tracing  : %s" % json.dumps(by_tracing, sort_keys=True))
     for key, idxs in sorted(known_panics.items()):
         print("known compile panic    : %s in %d entries (modules %s)" % (key, len(idxs), sorted(set(idxs))[:8]))
     for site, lst in sorted(panics.items()):
@@ -203,7 +310,9 @@ def main(argv=None):
                 f.write(c["src"])
     seen_mod = set()
     shown = 0
-    for c, e, k, exp, got, why in disagreements:
+    # unexplained ones first
+    disagreements.sort(key=lambda d: 0 if (d[5] is None or str(d[5]).startswith("UNEXPLAINED")) else 1)
+    for c, e, k, exp, got, why, tr in disagreements:
         if a.dump and c["index"] not in seen_mod:
             with open(os.path.join(a.dump, "disagree_%d.ak" % c["index"]), "w") as f:
                 f.write(c["src"])
@@ -212,14 +321,14 @@ def main(argv=None):
         seen_mod.add(c["index"])
         if shown < a.show:
             shown += 1
-            print("---- DISAGREEMENT module index %d entry %s%s" % (c["index"], e["name"], "  [" + why + "]" if why else ""))
+            print("---- DISAGREEMENT module index %d entry %s tracing %s%s" % (c["index"], e["name"], tr, "  [" + why + "]" if why else ""))
             print("args    : %s" % (json.dumps(e["args"][k]) if k is not None else "-"))
             print("expected: %s" % (json.dumps(exp),))
             print("got     : %s" % (json.dumps(got)[:600],))
             if not a.dump:
                 print(c["src"])
     print("modules with a disagreement: %s" % sorted(seen_mod))
-    return 1 if (st["disagree"] - known_n or st["panic"]) else 0
+    return 1 if (new or st["panic"] or st["other"]) else 0
 
 
 if __name__ == "__main__":
